@@ -27,11 +27,14 @@ Definition check10 (c : case10) : bool * bool * bool :=
   match c10_impl c, m with
   | Some cands, Ok e =>
     let names := map f_name e in
-    ( existsb (fun cand => existsb (fun flags =>
+    ( existsb (fun cand =>
                  admissible reg (c10_array_dims c) (c10_axes c)
-                            (map (fun nf : string * bool => {| f_name := fst nf; f_interp := snd nf |})
-                                 (combine cand flags)))
-                 [map (fun _ => false) cand; map (fun _ => true) cand]) cands
+                            (map (fun n : string =>
+                                    {| f_name := n;
+                                       f_interp := match key_of reg n with
+                                                   | Some (_, v) => negb (fits (c10_array_dims c) v)
+                                                   | None => false
+                                                   end |}) cand)) cands
       || existsb (fun cand => names_eqb cand names) cands && admissible reg (c10_array_dims c) (c10_axes c) e,
       existsb (fun cand => names_eqb cand names) cands,
       Bool.eqb (existsb f_interp e) (c10_warned c) )
